@@ -200,6 +200,9 @@ func (c *Call) againstModel(res *model.Result, o outcome) string {
 	if c.V != nil && c.V.Carrier == "mapiface" && !c.V.Missing && ev.KnownActive("KF-iface") {
 		return "" // known finding, judged by C01/C03/C18
 	}
+	if c.V != nil && c05Excluded(c.V) != "" {
+		return "" // the value makes the error text ambiguous for the clause parser: metamorphic oracles only
+	}
 	return model.Compare(res, o.Text, o.Nil, false)
 }
 
